@@ -499,9 +499,12 @@ pub fn all() -> Vec<Scenario> {
     }
     // every input cell of every permutation row of two real challenger circuits (+1, nothing else touched)
     type SweepFn = fn(usize, &'static str) -> Result<crate::chsweep::Swept, String>;
+    // (chsweep1::Swept is the same struct: the module is generated from chsweep.rs)
     for (nm, first, f) in [("kb-d4-ext", 8usize, crate::chsweep::sweep_ext as SweepFn), ("kb-d4-ext-partial-first-block", 3, crate::chsweep::sweep_ext),
                            ("kb-d1-base-in-quintic", 8, crate::chsweep::sweep_base), ("kb-d1-base-in-quintic-partial-first-block", 3, crate::chsweep::sweep_base),
-                           ("kb-d1-base-in-quintic-sample-first", 0, crate::chsweep::sweep_base)] {
+                           ("kb-d1-base-in-quintic-sample-first", 0, crate::chsweep::sweep_base),
+                           // the Poseidon1 twin of the base-field challenger (its own AIR crate, preprocessor, table prover)
+                           ("kb-d1-poseidon1-base-in-quintic", 8, crate::chsweep1::sweep_base), ("kb-d1-poseidon1-base-in-quintic-partial-first-block", 3, crate::chsweep1::sweep_base)] {
         match catch_unwind(AssertUnwindSafe(|| f(first, nm))) {
             Ok(Ok(sw)) if !sw.errors.is_empty() => per_bit.push(Scenario { id: Box::leak(format!("challenger-table-cell-{nm}").into_boxed_str()), properties: &["C06"], what: "", honest: format!("sweep incomplete: {}", sw.errors[0]), forged: None, accepted: false, detail: json!({"errors": sw.errors.len()}) }),
             Ok(Ok(sw)) => {
